@@ -354,7 +354,7 @@ func c17Gen(rng *gen.Rng, population string) *c17Hist {
 			burst--
 			p = burstPath
 		}
-		render := rng.Pick([]string{"top", "direct", "direct", "direct", "funcparam", "funcglobal", "funcdirect", "nested", "nested", "if", "ifdirect", "for", "fordirect", "shared", "shared", "unused", "elsedirect", "scopes", "reexec", "paramglobal", "untilexists", "nottaken", "multiret", "globalupdate", "afterchain", "flagafter", "loopswitch", "loopcall", "rangeread"})
+		render := rng.Pick([]string{"top", "direct", "direct", "direct", "funcparam", "funcglobal", "funcdirect", "nested", "nested", "if", "ifdirect", "for", "fordirect", "shared", "shared", "unused", "elsedirect", "scopes", "reexec", "paramglobal", "untilexists", "nottaken", "multiret", "globalupdate", "afterchain", "flagafter", "loopswitch", "loopcall", "rangeread", "guard2"})
 		if inBurst {
 			render = rng.Pick([]string{"direct", "direct", "top"})
 		}
@@ -1247,7 +1247,21 @@ func (h *c17Hist) render(seed uint64) []*c17Segment {
 				cur.OpIdx = append(cur.OpIdx, i)
 				continue
 			}
+			if op.Render == "guard2" {
+				body, isFile := m.Files[pathpkg.Clean(op.Path)]
+				body = strings.TrimSuffix(body, "\n")
+				if !isFile || op.Spell == "slash" || op.Spell == "slashdot" || op.Spell == "ghost" || len(body) > 200 || strings.ContainsAny(body, "\"$`\\\n") || strings.HasSuffix(m.Files[pathpkg.Clean(op.Path)], "\n\n") || m.Files[pathpkg.Clean(op.Path)] == "\n" || !strings.HasSuffix(m.Files[pathpkg.Clean(op.Path)], "\n") {
+					op.Render = "direct"
+				} else {
+					// exists guards a read, twice in ONE statement, as sibling operands with different
+					// truth values (both operands of && and || are evaluated: the file exists)
+					lit := tshLit(nil, body)
+					fmt.Fprintf(&sb, "func gf%d(ga%d bool, gb%d bool, gc%d bool) bool {\nreturn ga%d && !gb%d && gc%d\n}\n", id, id, id, id, id, id, id)
+					fmt.Fprintf(&sb, "ee%d := gf%d(exists(%s) && read(%s) == %s, exists(%s) && read(%s) == %s + \"?\", !exists(%s) || read(%s) == %s)\n", id, id, pe, pe, lit, pe, pe, lit, pe, pe, lit)
+				}
+			}
 			switch op.Render {
+			case "guard2":
 			case "direct", "fordirect":
 				fmt.Fprintf(&sb, "ee%d := exists(%s)\n", id, pe)
 			case "funcdirect":
